@@ -1,7 +1,9 @@
-from . import p_table, p_flow, p_sample, p_matrix
+from . import p_table, p_flow, p_sample, p_matrix, p_misc, p_api
 PROPS = {
     "C02": p_sample.run, "C03": p_table.run, "C04": p_table.run, "C05": p_table.run,
     "C06": p_sample.run, "C07": p_sample.run, "C08": p_sample.run, "C09": p_sample.run, "C10": p_sample.run, "C11": p_sample.run,
     "C15": p_matrix.run, "C16": p_matrix.run,
+    "C12": p_misc.run_c12, "C20": p_misc.run_c20,
+    "C17": p_api.run, "C18": p_api.run,
     "C13": p_flow.run, "C14": p_flow.run, "C19": p_flow.run,
 }
